@@ -357,4 +357,51 @@ theorem mulAdm_discharged {env : Env} (he : EnvOK env) {N : Nat} (hN : 0 < N) {m
   mulAdm_of_relin he hN hd ha hb hm hq hhi hroom hs (fun T0 T1 T2 ht w0 w1 w2 d0 d1 d2 =>
     relinContract_of_adm hN he.lo (by have := he.hi; omega) (hadm T0 T1 T2 ht) dst.g.size w0 w1 w2 d0 d1 d2)
 
+theorem mulInto_of_squareInto {env : Env} {dst a m : Ct} (h : squareInto env dst a = .ok m) : mulInto env dst a a = .ok m := by
+  obtain ⟨q, hq, hchk, hm⟩ := squareInto_params h
+  obtain ⟨h1, h2⟩ := squareCheck_none hchk
+  have h3 : ¬ cnvHi env.base2k q.cnv > 2 * effLimbs env a := by
+    unfold squareCheck at hchk
+    rw [if_neg h1, if_neg h2] at hchk
+    split at hchk
+    · cases hchk
+    · assumption
+  simp only [mulInto, hq, finishMul, tensorCheck, if_neg h1, h2, or_self, if_false]
+  rw [if_neg (by omega)]
+  rw [hm]
+
+/-- `ckks_square_into` runs the data path of `ckks_mul_into(dst, a, a)` (C05 `tensorSquare_eq_tensorApply`, rank 1) -/
+theorem dSquareInto_eq_mul {env : Env} {N : Nat} {mk : MulKey} {dst a : DCt} {H : Int} {b r : Nat} (ha : GB N b 1 H a.g) {m : Ct}
+    (h : squareInto env dst.ct a.ct = .ok m) : dSquareInto env N mk dst a = dMulInto env N mk dst a a := by
+  obtain ⟨c0, c1, hc⟩ := cols2 ha
+  obtain ⟨q, hq, _, _⟩ := squareInto_params h
+  simp only [dSquareInto, dMulInto, withMeta_ok _ _ _ h, withMeta_ok _ _ _ (mulInto_of_squareInto h), hq, mulCols, Nat.max_self]
+  rw [C05.tensorSquare_eq_tensorApply mk.big N env.base2k a.g.size q.cnv env.base2k (effCols env.base2k a.md.effK a.g) a.md.effK _
+    (Or.inl (by simp [effCols, hc])) (by simp [effCols, zeroC, tensorCols, hc])]
+
+/-- **`ckks_square_into` (rank 1), the product contract discharged** -/
+theorem squareAdm_discharged {env : Env} (he : EnvOK env) {N : Nat} (hN : 0 < N) {mk : MulKey} {dst a : DCt} {Hd : Int}
+    (hd : GB N env.base2k 1 Hd dst.g) (ha : DOK env N 1 a) {m : Ct}
+    (hm : squareInto env dst.ct a.ct = .ok m) {q : MulP} (hq : mulCtParams env dst.ct a.ct a.ct = .ok q)
+    (hhi : (cnvOffsetSplit env.base2k q.cnv).1 ≤ divCeil a.md.effK env.base2k + divCeil a.md.effK env.base2k - 1)
+    (hroom : 2 ^ env.base2k * (4 * (divCeil a.md.effK env.base2k : Int) * N * 2 ^ env.base2k) + 8 ≤ 2 ^ (bitsOf mk.big - 2))
+    {s : List Poly} (hs : s ≠ []) {EL KL : ℕ → ℕ → Poly} {Hp Gmax Dmax : Int}
+    (hadm : ∀ T0 T1 T2, Core.tensorApply false mk.big N env.base2k (max a.g.size a.g.size) q.cnv env.base2k
+        (effCols env.base2k a.md.effK a.g) a.md.effK (effCols env.base2k a.md.effK a.g) a.md.effK
+        (zeroC N (tensorCols a.g) (max a.g.size a.g.size)) = some [T0, T1, T2] →
+      RelinAdm mk.big N env.base2k (max a.g.size a.g.size) mk.tsk s EL KL Hp Gmax Dmax T0 T2) :
+    MulAdm env N 1 s (mulCtU N env.base2k (divCeil a.md.effK env.base2k) (max a.g.size a.g.size) dst.g.size (s.getD 0 [])
+        (relinU env.base2k dst.g.size mk.tsk.size s Gmax Dmax) : Int)
+      dst a a (dSquareInto env N mk dst a) q := by
+  rw [dSquareInto_eq_mul (r := 1) ha hm]
+  exact mulAdm_discharged he hN hd ha ha (mulInto_of_squareInto hm) hq hhi hroom hs hadm
+
+/-- the contract is monotone in its error constant (so one constant `Uc` serves every product of a program) -/
+theorem MulAdm.mono {env : Env} {N r : Nat} {s : List Poly} {U U' : ℚ} {dst a b : DCt} {res : Outcome DCt} {q : MulP}
+    (h : MulAdm env N r s U dst a b res q) (hU : U ≤ U') : MulAdm env N r s U' dst a b res q := by
+  obtain ⟨c', h1, h2, h3, h4, z, hc⟩ := h
+  refine ⟨c', h1, h2, h3, h4, z, ⟨fun t ht => ?_⟩⟩
+  obtain ⟨q', e, hr, he⟩ := hc.rel t ht
+  exact ⟨q', e, hr, he.trans (mul_le_mul_of_nonneg_right hU (by positivity))⟩
+
 end Ckks
